@@ -264,7 +264,7 @@ fn one(ctx: &mut Ctx, parser: &CooklangParser, rng: &mut Rng, input: &str) {
 
 // ---------------------------------------------------------------- generators
 
-const YAML_SCALARS: &[&str] = &["x", "\"quoted é\"", "2", "-3", "1.5", "1e3", "true", "false", "null", "~", "2024-01-01", "0x10", "\"\"", "'a: b'", "1_000", "-0.0", "18446744073709551615", "0.1", "3 min", "[a, b, 3]", "{k: v, n: 2}", "[]", "{}"];
+const YAML_SCALARS: &[&str] = &["x", "\"quoted é\"", "2", "-3", "1.5", "1e3", "true", "false", "null", "~", "2024-01-01", "0x10", "\"\"", "'a: b'", "1_000", "-0.0", "18446744073709551615", "0.1", "3 min", "[a, b, 3]", "{k: v, n: 2}", "[]", "{}", "4|2|8", "[6, 3]", "12|6", "2|4"];
 const YAML_KEYS: &[&str] = &["title", "servings", "tags", "time", "prep time", "cook time", "author", "source", "note", "é key", "a b", "\"1\"", "type", "map", "locale", "difficulty", "description"];
 
 fn yaml_value(rng: &mut Rng, depth: usize, indent: usize) -> String {
